@@ -191,7 +191,7 @@ func (b *BitArray) Xor(other *BitArray) error {
 	if b.size != other.size {
 		return errors.New("IllegalArgumentException: Sizes don't match")
 	}
-	for i := 0; i < len(b.bits); i++ {
+	for i := 0; i < len(b.bits) && i < len(other.bits); i++ {
 		b.bits[i] ^= other.bits[i]
 	}
 	return nil
